@@ -8,6 +8,7 @@ unit step / across ranges, weighted average for normalization_order=1.
 import numpy as np
 
 from tflv import core
+from tflv import modes
 from tflv.gen import graphs
 
 PROPERTY = "C20"
@@ -56,7 +57,7 @@ def gen_cases(ctx):
         imax[d] = hi
     yield {"kind": "plain" if i % 3 else "constrained", "n": n, "units": units, "imin": imin, "imax": imax,
            "bounds_mode": bm, "use_bias": bool(rng.rand() < .6), "none_lists": bool(rng.rand() < .3),
-           "seed": int(rng.randint(2**31 - 1))}
+           "seed": int(rng.randint(2**31 - 1)), "exec": modes.pick(rng, (0.5, 0.2, 0.3))}
 
 
 def _ref(K, b, x, imin, imax, units):
@@ -138,7 +139,9 @@ def run_case(ctx, case):
   if case["use_bias"]:
     b = rng.normal(size=layer.bias.shape).astype(np.float32) * 5
     layer.bias.assign(b)
-  y = layer(tf.constant(x)).numpy().astype(np.float64)
+  ex = case.get("exec", "eager")
+  ctx.cls("exec:" + ex)
+  y = modes.call(tf, ex, layer, tf.constant(x)).numpy().astype(np.float64)
   ref, mag = _ref(K, b, x, imin, imax, units)
   ref = ref.reshape(y.shape)
   mag = mag.reshape(y.shape)
@@ -194,7 +197,7 @@ def run_case(ctx, case):
                   info={"pair": [dom, weak], "kind": key})
     if kw.get("normalization_order") == 1 and float(np.abs(K).max()) > 1e-6:
       xs = rng.normal(size=shape).astype(np.float32) * 3
-      ys = layer(tf.constant(xs)).numpy().astype(np.float64)
+      ys = modes.call(tf, ex, layer, tf.constant(xs)).numpy().astype(np.float64)
       lo = np.array([v if v is not None else -np.inf for v in imin])
       hi = np.array([v if v is not None else np.inf for v in imax])
       xc = np.minimum(np.maximum(xs.astype(np.float64), lo.astype(np.float32)), hi.astype(np.float32))
